@@ -34,7 +34,7 @@ pub const PAUSE_SITES: &[u32] = &[rv::MS_AFTER_CONSUME_NONE, rv::MS_AFTER_KEEP_R
     rv::SM_CANCEL_AFTER_FLAG, rv::SM_CANCEL_ALL_EACH, rv::SM_WAKE_BEFORE_READ, rv::SM_CREATE_AFTER_FLAG, rv::AM_CONSUME_AFTER_READ, rv::SM_DROPPED_AFTER_WAKER, rv::SM_DROPPED_AFTER_COUNTERS];
 
 pub fn draw_cfg(rng: &mut Rng, only: Option<&str>) -> Cfg {
-    let kinds: Vec<Kind> = chan::ALL_KINDS.iter().copied().filter(|k| only.map(|o| k.name() == o).unwrap_or(true)).collect();
+    let kinds: Vec<Kind> = chan::ALL_KINDS.iter().copied().filter(|k| only.map(|o| k.name() == o).unwrap_or(true)).filter(|k| !(cfg!(miri) && *k == Kind::MultiMmap)).collect();   // (Miri cannot interpret file-backed mmap)
     let kind = *rng.pick(&kinds);
     let cfgs: Vec<(usize, usize)> = chan::cfgs_for(kind, false).into_iter().filter(|c| c.1 <= 4 && (c.0 == 0 || c.0 >= 4) && c.0 <= 16).collect();
     let (n, m) = *rng.pick(&cfgs);
